@@ -1,4 +1,7 @@
 //! Independent reference implementations used as oracles.
+pub mod cdf;
 pub mod dd;
+pub mod glm_ref;
 pub mod linalg;
 pub mod quad;
+pub mod special;
